@@ -96,6 +96,9 @@ pub fn full_alphabet(nrep: usize, ndocs: usize) -> Vec<Op> {
         v.push(Op::Snapshot(r));
         v.push(Op::StageRt(r));
         v.push(Op::Reopen(r));
+        v.push(Op::ObjPut(r, 1));
+        v.push(Op::ObjPut(r, 2));
+        v.push(Op::ObjDel(r));
         for k in 0..4 {
             v.push(Op::Travel(r, k));
         }
@@ -131,8 +134,9 @@ pub fn scenarios(thorough: bool) -> Vec<Scenario> {
         3,
         if thorough { &[1, 6, 8, 4] } else { &[1, 8] },
         if thorough { 5 } else { 3 },
-        &[Op::Resolve(1, 0, 0), Op::Resolve(1, 0, 1), Op::Resolve(0, 0, 0), Op::Unstage(1)],
+        &[Op::Resolve(1, 0, 0), Op::Resolve(1, 0, 1), Op::Resolve(0, 0, 0), Op::Unstage(1), Op::ObjPut(1, 1)],
     ));
+    v.push(long_chain_scenario("pair-long-chain", if thorough { 3 } else { 2 }, &[]));
     // a flattened key disappearing / reappearing on one side while the other edits the root
     v.push(pair_scenario(
         "pair-rootkinds",
